@@ -33,6 +33,11 @@ var c08DecBoundary = []string{
 	"123456789012345678901234567890.123456789", "0.000000000000000000000000000001",
 	"2147483647.0", "2147483647.5", "2147483648.0", "-2147483648.0", "-2147483648.5", "-2147483649.0",
 	"9999999999.9", "0.49999999999999999", "1.45", "1.55", "-1.45", "100.0", "0.001",
+	// unscaled coefficients exactly on a machine-word boundary (±2^31, ±2^32, ±2^63, 2^63-1, 2^64)
+	// at several scales, and the coefficients ±1 (where a fixed-width fast path for the
+	// coefficients overflows or loses the sign)
+	"-9.223372036854775808", "9.223372036854775807", "9.223372036854775808", "-0.9223372036854775808", "-922337203685477580.8",
+	"18.446744073709551616", "-18.446744073709551615", "-2.147483648", "4.294967296", "-0.1", "-0.01", "0.01",
 }
 
 func c08IsIntKind(k string) bool {
